@@ -5,7 +5,7 @@ use selium_std::errors::{ProtocolError, SeliumError};
 use std::mem::size_of;
 use tokio_util::codec::{Decoder, Encoder};
 
-const MAX_MESSAGE_SIZE: u64 = 1024 * 1024;
+pub const MAX_MESSAGE_SIZE: u64 = 1024 * 1024;
 const LEN_MARKER_SIZE: usize = size_of::<u64>();
 const TYPE_MARKER_SIZE: usize = size_of::<u8>();
 const RESERVED_SIZE: usize = LEN_MARKER_SIZE + TYPE_MARKER_SIZE;
